@@ -6,6 +6,7 @@ import (
 	"bytes"
 	"context"
 	"fmt"
+	"io"
 	"time"
 
 	"github.com/benbjohnson/litestream"
@@ -91,7 +92,16 @@ func genC18(r *Rng, tier string, idx int) *Program {
 		case 8:
 			p.Ops = append(p.Ops, Op{Kind: "vfs_unlock"})
 		case 9:
-			p.Ops = append(p.Ops, Op{Kind: "vfs_time_travel", N: int64(r.Intn(1000))})
+			if r.Chance(0.5) {
+				p.Ops = append(p.Ops, Op{Kind: "vfs_time_travel", N: int64(r.Intn(1000))})
+				break
+			}
+			// the reader sets a target time while one of its polls is in flight
+			// and the primary has published newer files
+			p.Ops = append(p.Ops, appOp(genTxn(r, &p.Cfg)), Op{Kind: "ls_sync_wait"})
+			site := []string{"vfsclient:list:0", "vfsclient:list:1", "vfsclient:open"}[r.Pick([]int{6, 2, 2})]
+			p.Ops = append(p.Ops, Op{Kind: "vfs_poll", Interpose: []Interpose{{Site: site, Nth: r.Range(1, 2), Steps: []Step{{K: "vfs_set_time", N: r.Intn(1000)}}}}},
+				Op{Kind: "vfs_check_time"})
 		default:
 			p.Ops = append(p.Ops, Op{Kind: "sleep", Ms: []int64{2500, 10000}[r.Intn(2)]})
 		}
@@ -106,6 +116,33 @@ type c18state struct {
 	maxPages uint32   // largest committed size of the source seen so far
 	shrunk   bool     // the source's committed size decreased at some point after the VFS file was opened
 	traveled bool
+	// a target time set while a poll was in flight (checked by vfs_check_time)
+	travelT    time.Time
+	travelWant []byte
+	travelErr  error
+}
+
+// yieldClient is the VFS reader's replica client: every remote call is a
+// scheduling point of the simulation (site vfsclient:<call>), so that other
+// parties (the reader's own pragma, the primary) can act while a poll is in
+// flight.
+type yieldClient struct {
+	litestream.ReplicaClient
+	e *Env
+}
+
+func (c *yieldClient) LTXFiles(ctx context.Context, level int, seek ltx.TXID, useMetadata bool) (ltx.FileIterator, error) {
+	if goid() == c.e.mainGID {
+		c.e.yield(fmt.Sprintf("vfsclient:list:%d", level))
+	}
+	return c.ReplicaClient.LTXFiles(ctx, level, seek, useMetadata)
+}
+
+func (c *yieldClient) OpenLTXFile(ctx context.Context, level int, minTXID, maxTXID ltx.TXID, offset, size int64) (io.ReadCloser, error) {
+	if goid() == c.e.mainGID {
+		c.e.yield("vfsclient:open")
+	}
+	return c.ReplicaClient.OpenLTXFile(ctx, level, minTXID, maxTXID, offset, size)
 }
 
 func (e *Env) c18facts(st *c18state, v *Violation) *Violation {
@@ -145,10 +182,17 @@ func runC18(t testingT, p *Program) *Result {
 var c18cur *c18state
 
 func (e *Env) c18check(st *c18state, when string) *Violation {
+	// reads issued by the oracle are not scheduling points
+	prev := e.inHook
+	e.inHook = true
+	defer func() { e.inHook = prev }()
 	return e.c18facts(st, e.c18check0(st, when))
 }
 
 func (e *Env) c18check0(st *c18state, when string) *Violation {
+	if !st.travelT.IsZero() {
+		return nil // a time-travel view is active; vfs_check_time compares it
+	}
 	f := st.f
 	pos := f.Pos().TXID
 	txid := pos
@@ -209,7 +253,7 @@ func init() {
 		if len(e.FS.Listing(0)) == 0 {
 			return "noop:empty", false
 		}
-		f := litestream.NewVFSFile(file.NewReplicaClient(e.RepDir), "db", e.probeLogger())
+		f := litestream.NewVFSFile(&yieldClient{ReplicaClient: file.NewReplicaClient(e.RepDir), e: e}, "db", e.probeLogger())
 		f.PollInterval = 10000 * time.Hour // polls are issued by the program, one at a time
 		f.CacheSize = []int{1, 64 << 10, 10 << 20}[int(e.Prog.Seed%3)]
 		if err := f.Open(); err != nil {
@@ -232,6 +276,66 @@ func init() {
 		}
 		set(e, e.c18check(st, fmt.Sprintf("after poll (op %d)", e.curOp)))
 		return fmt.Sprintf("ok pos=%d", st.f.Pos().TXID), false
+	}
+	harnessSteps["vfs_set_time"] = func(e *Env, s *Step) string {
+		st := c18cur
+		if st == nil || st.f == nil || st.lockedAt != 0 || !st.travelT.IsZero() {
+			return "noop"
+		}
+		files := e.FS.Listing(0)
+		if len(files) == 0 {
+			return "noop"
+		}
+		T := files[s.N%len(files)].CreatedAt.Add(time.Duration(s.N%3-1) * time.Millisecond)
+		st.travelWant, st.travelErr = e.restoreAlone(func(o *litestream.RestoreOptions) { o.Timestamp = T })
+		if err := st.f.SetTargetTime(ctx, T); err != nil {
+			st.travelWant, st.travelErr = nil, nil
+			return errStr(err)
+		}
+		st.travelT = T
+		st.traveled = true
+		e.Res.Probes["vfs_time_set_during_poll"]++
+		return "ok " + T.Format(time.RFC3339Nano)
+	}
+	extraOps["vfs_check_time"] = func(e *Env, op *Op) (string, bool) {
+		st := c18cur
+		if st == nil || st.f == nil || st.travelT.IsZero() {
+			return "noop", false
+		}
+		T, want, werr := st.travelT, st.travelWant, st.travelErr
+		st.travelT, st.travelWant, st.travelErr = time.Time{}, nil, nil
+		prevHook := e.inHook
+		e.inHook = true // the oracle's reads are not scheduling points
+		defer func() { e.inHook = prevHook }()
+		if werr == nil {
+			ps := e.Led.PageSize
+			buf := make([]byte, ps)
+			for pg := 0; pg*ps < len(want); pg++ {
+				n, rerr := st.f.ReadAt(buf, int64(pg*ps))
+				a := append([]byte(nil), buf...)
+				b := append([]byte(nil), want[pg*ps:(pg+1)*ps]...)
+				if pg == 0 {
+					a, b = maskFollow(a), maskFollow(b)
+				}
+				if rerr != nil || n != ps || !bytes.Equal(a, b) {
+					v := e.c18facts(st, e.fail("vfs-time-travel-differs", "target time %s was set while a poll was in flight; after the poll page %d of the time-travel view differs from Restore(timestamp) (n=%d err=%v)", T.Format(time.RFC3339Nano), pg+1, n, rerr))
+					v.Facts["set_during_poll"] = true
+					set(e, v)
+					break
+				}
+			}
+			if sz, _ := st.f.FileSize(); sz != int64(len(want)) && e.Viol == nil {
+				v := e.c18facts(st, e.fail("vfs-time-travel-size", "target time %s was set while a poll was in flight; after the poll the view reports size %d, Restore(timestamp) has %d", T.Format(time.RFC3339Nano), sz, len(want)))
+				v.Facts["set_during_poll"] = true
+				set(e, v)
+			}
+			e.Res.Probes["vfs_time_checked_after_poll"]++
+		}
+		if rerr := st.f.ResetTime(ctx); rerr != nil {
+			return errStr(rerr), false
+		}
+		set(e, e.c18check(st, "after leaving time travel"))
+		return "ok", false
 	}
 	extraOps["vfs_lock"] = func(e *Env, op *Op) (string, bool) {
 		st := c18cur
